@@ -195,3 +195,22 @@ PROPS["C05"] = {
     "trusted_base": ["verus 0.2026.09.13 + z3", "kani 0.68.0 + cbmc 6.11"],
     "explanation": "index remapping at the filter push-down site and in the predicate/projection helpers",
 }
+
+PROPS["C33"] = {
+    "verus": ["matches"],
+    "kani": ["validator"],
+    "level": "proof",
+    "level_text": "Conformance: unbounded Verus proof that SchemaType::matches (and the storage-level DataType::matches), sliced from /repo each run together with the real Value/DataType/SchemaType definitions, equal the type table for EVERY value incl. every vector dimension. Enforcement: Kani on the real ValidationEngine::validate_batch/validate_tuple — accepted iff every tuple has the schema's arity and every value matches — BOUNDED (1 tuple x 1 column in quick; 2 tuples and arity mismatch in thorough) and therefore not counted as proved. That every insert path calls the validator is not decided.",
+    "level_note": "trusted: Verus+Z3, Kani+CBMC; the type table `conforms` is the spec's reading of docs/spec/types.md plus the documented int->float and int-as-timestamp coercions; alloc::fmt::format stubbed in the Kani harnesses; handler call sites not covered",
+    "technique": "Verus postconditions on functions extracted from /repo each run (bodies filled in by the extractor, erasure-checked); Kani bounded harnesses on the validator injected into a scratch copy",
+    "aux_failure": "violation",
+    "functions_under_contract": ["src/schema/mod.rs: SchemaType::matches", "src/value/mod.rs: DataType::matches; enum Value, enum DataType (verbatim)", "src/schema/validator.rs: ValidationEngine::validate_batch, validate_tuple (Kani, bounded)"],
+    "assumptions": [
+        "the conformance table (`conforms`) is the specification of the type system: int accepts Int32/Int64, float also accepts ints, timestamp also accepts Int64, vector(n) accepts f32 and int8 vectors of length n, any/named accept everything, Null conforms only to any/named",
+        "validate_batch beyond 2 tuples x 1 column is not explored (CBMC: 70 s for 1x1, 8 min for 2x1)",
+        "alloc::fmt::format does not influence control flow (stubbed)",
+        "that Handler::query_program and the session insert path call validate_batch before storing is not decided (async handler)",
+    ],
+    "trusted_base": ["verus 0.2026.09.13 + z3", "kani 0.68.0 + cbmc 6.11"],
+    "explanation": "type conformance table + all-or-nothing validator",
+}
